@@ -77,16 +77,31 @@ pub fn gen(idx: u64, rng: &mut Rng, tier: Tier) -> Scn {
         "a", "b", ".", "..", "/", "//", "\\", ":", "%2e", "%2f", "%5c", "%00", "~", " ", "?", "#", "file:", "http:", "x:", "@", "{JAIL}", "l1", "dest", "c0", "é", "\t", "..;", "...", "C:", "-",
         // backslash-separated dot segments (one path component on Linux), siblings whose name starts like the destination
         "\\..", "..\\", "a\\..\\..\\", "\\..\\..\\name", "x://h/", "../dest-old/victim", "../dest.log", "dest-old", "x:..\\..\\",
+        // dot segments disguised by characters some layer strips or refuses (tab / newline removed by URL parsing,
+        // characters a "portable file name" filter drops)
+        ".\t.", ".\n.", ".\r.", "x:.\t./", "*..", "..:", ".|.", "..?", "<..>", "\"..", "..*/", "/*../",
     ];
     let n = 24;
     let mut locations = Vec::new();
     // the other components of a URL (query, fragment, parameters, user info, port) carrying path material
     let seps = ["?", "#", "?/", "#/", "?q=", "?q=1/", ";", ";/", "?a#", "%3F/", "?/../#/"];
-    let tails = ["..", "..", "..", "name", ".", "", "victim.txt", "c6", "dest-old/victim", "dest.log", "%2e%2e", "{JAIL}/l1/abs", "l6/c6"];
+    let tails = ["*..", "..:", ".|.", ".\t.", "..", "..", "..", "name", ".", "", "victim.txt", "c6", "dest-old/victim", "dest.log", "%2e%2e", "{JAIL}/l1/abs", "l6/c6"];
     for k in 0..n {
         if k % 2 == 1 {
             let mut s = String::new();
             s.push_str(*rng.pick(&PREFIXES[..]));
+            if rng.chance(0.3) {
+                // path only: 1-4 segments of path material (plain and disguised dot segments, canary names)
+                let nt = rng.range(1, 5);
+                for i in 0..nt {
+                    if i > 0 {
+                        s.push('/');
+                    }
+                    s.push_str(*rng.pick(&tails[..]));
+                }
+                locations.push(s);
+                continue;
+            }
             if rng.chance(0.15) {
                 s.push_str(*rng.pick(&["u:p@h/", "..@h/", "h:80/", "[::1]/", "h/..:1/"]));
             }
@@ -95,7 +110,7 @@ pub fn gen(idx: u64, rng: &mut Rng, tier: Tier) -> Scn {
                 if i > 0 {
                     s.push('/');
                 }
-                s.push_str(*rng.pick(&["name", "name", "a", ".", "..", "seg.m4s"]));
+                s.push_str(*rng.pick(&["name", "name", "a", ".", "..", "seg.m4s", "*..", "..:", ".|.", ".\t.", ".\n."]));
             }
             s.push_str(*rng.pick(&seps[..]));
             let nt = rng.range(1, 5);
